@@ -5,6 +5,8 @@ Definition run_C20 (c : case20) (size align : N) : obs20 :=
   let w := e_from t (k_v c) in
   {| b_bytes := e_bytes t w; b_native := e_to_native t w;
      b_eq1 := e_eq_new_old t w (k_x c); b_eq2 := e_eq_old_new t (k_x c) w;
+     (* `!=` is PartialEq's provided method: the negation of eq (endian_type! defines only eq) *)
+     b_ne1 := negb (e_eq_new_old t w (k_x c)); b_ne2 := negb (e_eq_old_new t (k_x c) w);
      (* size_of/align_of are compile-time facts of the Rust types (const_assert! in the source):
         the model takes them from the observation of the native type *)
      b_size := size; b_align := align; b_nsize := size; b_nalign := align;
@@ -21,17 +23,17 @@ Definition ety_of (n : N) : option ety :=
   | _ => None end.
 
 Definition enc20 (o : obs20) : list tok :=
-  [TL (b_bytes o); TN (b_native o); bool_tok (b_eq1 o); bool_tok (b_eq2 o);
+  [TL (b_bytes o); TN (b_native o); bool_tok (b_eq1 o); bool_tok (b_eq2 o); bool_tok (b_ne1 o); bool_tok (b_ne2 o);
    TN (b_size o); TN (b_align o); TN (b_nsize o); TN (b_nalign o); bool_tok (b_routes o)].
 
 Definition suite_C20 (inp obs : list tok) : verdict :=
   match inp, obs with
-  | [TN ty; TN v; TN x], [TL bs; TN nat_; TN e1; TN e2; TN sz; TN al; TN nsz; TN nal; TN routes] =>
+  | [TN ty; TN v; TN x], [TL bs; TN nat_; TN e1; TN e2; TN n1; TN n2; TN sz; TN al; TN nsz; TN nal; TN routes] =>
       match ety_of ty with
       | Some t =>
           if (v <? 256 ^ N.of_nat (e_size t)) && (x <? 256 ^ N.of_nat (e_size t)) then
             let c := {| k_ty := t; k_v := v; k_x := x |} in
-            let o := {| b_bytes := bs; b_native := nat_; b_eq1 := negb (e1 =? 0); b_eq2 := negb (e2 =? 0);
+            let o := {| b_bytes := bs; b_native := nat_; b_eq1 := negb (e1 =? 0); b_eq2 := negb (e2 =? 0); b_ne1 := negb (n1 =? 0); b_ne2 := negb (n2 =? 0);
                         b_size := sz; b_align := al; b_nsize := nsz; b_nalign := nal; b_routes := negb (routes =? 0) |} in
             {| v_model := enc20 (run_C20 c nsz nal); v_ok := ok_C20 c o; v_wellformed := true |}
           else malformed
